@@ -476,8 +476,10 @@ def write_replay(pid, kind, build, header, lines):
 
 
 def write_evidence(prop, ev):
-    os.makedirs(os.path.join(ROOT, 'evidence'), exist_ok=True)
-    path = os.path.join(ROOT, 'evidence', prop['property_id'] + '.json')
+    # evidence/ describes runs against /repo itself; a mutation self-test (VERIF_REPO=<scratch copy>) writes elsewhere
+    edir = os.path.join(ROOT, 'evidence') if REPO == '/repo' else os.path.join(WORK, 'evidence-mutant')
+    os.makedirs(edir, exist_ok=True)
+    path = os.path.join(edir, prop['property_id'] + '.json')
     json.dump(ev, open(path, 'w'), indent=1)
     return path
 
